@@ -10,43 +10,51 @@ import (
 func NewOpenGameManager(options OpenGameOption) OpenGameManager {
 	m := &openGameManager{
 		onOpenGameReady: options.OnOpenGameReady,
-		rg: syncsaga.NewReadyGroup(syncsaga.WithTimeout(options.Timeout, func(rg *syncsaga.ReadyGroup) {
-			// Auto Ready By Default
-			for idx, isReady := range rg.GetParticipantStates() {
-				if !isReady {
-					rg.Ready(idx)
-				}
-			}
-		})),
 	}
 	m.state = &OpenGameState{
 		Timeout:      options.Timeout,
 		GameCount:    0,
 		Participants: make(map[string]*OpenGameParticipant),
 	}
+	m.rg = m.newReadyGroup()
 
 	return m
+}
+
+// newReadyGroup creates the ready group of one set-up. Every set-up gets its own group, so
+// goroutines still running for a superseded set-up (consumer, timeout, completion) can
+// neither act on the new one nor be mistaken for it.
+func (m *openGameManager) newReadyGroup() *syncsaga.ReadyGroup {
+	return syncsaga.NewReadyGroup(syncsaga.WithTimeout(m.state.Timeout, func(rg *syncsaga.ReadyGroup) {
+		m.mu.Lock()
+		defer m.mu.Unlock()
+
+		// superseded by a newer set-up
+		if rg != m.rg {
+			return
+		}
+
+		// Auto Ready By Default
+		for idx, isReady := range rg.GetParticipantStates() {
+			if !isReady {
+				rg.Ready(idx)
+			}
+		}
+	}))
 }
 
 func NewOpenGameManagerFromState(state OpenGameState, options OpenGameOption) OpenGameManager {
 	m := &openGameManager{
 		onOpenGameReady: options.OnOpenGameReady,
-		rg: syncsaga.NewReadyGroup(syncsaga.WithTimeout(options.Timeout, func(rg *syncsaga.ReadyGroup) {
-			// Auto Ready By Default
-			for idx, isReady := range rg.GetParticipantStates() {
-				if !isReady {
-					rg.Ready(idx)
-				}
-			}
-		})),
 		state: &OpenGameState{
 			Timeout:      options.Timeout,
 			GameCount:    state.GameCount,
 			Participants: make(map[string]*OpenGameParticipant),
 		},
 	}
+	m.rg = m.newReadyGroup()
 	m.rg.OnCompleted(func(rg *syncsaga.ReadyGroup) {
-		m.readyGroupOnCompleted()
+		m.readyGroupOnCompleted(rg)
 	})
 
 	m.readyGroupResetParticipants()
@@ -71,15 +79,22 @@ func NewOpenGameManagerFromState(state OpenGameState, options OpenGameOption) Op
 }
 
 func (m *openGameManager) Ready(participantID string) error {
+	m.mu.Lock()
+	defer m.mu.Unlock()
+
 	return m.readyGroupReady(participantID)
 }
 
 func (m *openGameManager) Setup(gameCount int, participants map[string]int) {
+	m.mu.Lock()
+	defer m.mu.Unlock()
+
 	m.state.GameCount = gameCount
 
 	m.rg.Stop()
+	m.rg = m.newReadyGroup()
 	m.rg.OnCompleted(func(rg *syncsaga.ReadyGroup) {
-		m.readyGroupOnCompleted()
+		m.readyGroupOnCompleted(rg)
 	})
 	m.readyGroupResetParticipants()
 	for id, idx := range participants {
